@@ -10,6 +10,10 @@ structure St where
   cfg   : Cfg
   nodes : List Nat      -- in creation order
   chans : List Nat
+  invalid : List (Nat × Nat) := []
+  noadmit : List (Nat × Nat) := []
+  nolink  : List (Nat × Nat) := []
+  static  : Bool := false   -- the static tables have been re-tabulated
 
 def emptyW : W :=
   { t := Tree.empty (fun _ => .leaf) (fun _ => true) (fun _ => []),
@@ -54,6 +58,44 @@ def obs (s : St) (e : Err) : List String :=
     fun c => s!"{c}={showOpt (w.val c)}>{showOpt (w.recv c)}")
   let cache := " ".intercalate ((s.nodes.filter fun n => w.cached n).map toString)
   ["res " ++ showErr e, "tree " ++ tree, "kids " ++ kids, "conn " ++ conn, "data " ++ vals, "cache " ++ cache]
+
+/-- re-tabulate the dynamic fields over the finite domain, so that the closures of successive
+operations do not pile up (the model functions are total; only the listed ids are ever read) -/
+def freeze (s : St) : St :=
+  let w := s.w
+  let conns := s.chans.map fun c => (c, w.g.conns c)
+  let vals := s.chans.map fun c => (c, w.val c)
+  let recvs := s.chans.map fun c => (c, w.recv c)
+  let labels := s.nodes.map fun n => (n, w.t.label n)
+  let parents := s.nodes.map fun n => (n, w.t.parent n)
+  let kids := s.nodes.map fun n => (n, w.t.children n)
+  let starts := s.nodes.map fun n => (n, w.t.starting n)
+  let cached := s.nodes.map fun n => (n, w.cached n)
+  let t' : Tree.Tree := { w.t with
+    label := fun n => (labels.lookup n).getD []
+    parent := fun n => (parents.lookup n).getD none
+    children := fun n => (kids.lookup n).getD []
+    starting := fun n => (starts.lookup n).getD [] }
+  let g' : G := { w.g with conns := fun c => (conns.lookup c).getD [] }
+  { s with w := { w with t := t', g := g', val := fun c => (vals.lookup c).getD none,
+                         recv := fun c => (recvs.lookup c).getD none,
+                         cached := fun n => (cached.lookup n).getD false } }
+
+/-- the same for the static tables, once, before the first operation -/
+def freezeStatic (s : St) : St :=
+  if s.static then s
+  else
+    let w := s.w
+    let kinds := s.chans.map fun c => (c, w.g.kind c)
+    let owners := s.chans.map fun c => (c, w.g.owner c)
+    let labs := s.chans.map fun c => (c, w.clab c)
+    let ios := s.nodes.map fun n => (n, w.io n)
+    let nk := s.nodes.map fun n => (n, w.t.kind n)
+    let t' : Tree.Tree := { w.t with kind := fun n => (nk.lookup n).getD .leaf }
+    let g' : G := { w.g with kind := fun c => (kinds.lookup c).getD .dataIn, owner := fun c => (owners.lookup c).getD 0 }
+    freeze { s with static := true,
+                    w := { w with t := t', g := g', clab := fun c => (labs.lookup c).getD "",
+                                  io := fun n => (ios.lookup n).getD ⟨[], [], [], []⟩ } }
 
 def addChan (io : NodeIO) (k : Kind) (c : Nat) : NodeIO :=
   match k with
@@ -138,21 +180,21 @@ def step (s : St) (ws : List String) : St × List String :=
   | ["invalid", a, b] =>
     match a.toNat?, b.toNat? with
     | some a, some b =>
-      let v := w.g.valid
-      let g' : G := { w.g with valid := fun x y => if (x = a ∧ y = b) ∨ (x = b ∧ y = a) then false else v x y }
-      ({ s with w := { w with g := g' } }, [])
+      let l := (a, b) :: (b, a) :: s.invalid
+      let g' : G := { w.g with valid := fun x y => !(l.contains (x, y)) }
+      ({ s with invalid := l, w := { w with g := g' } }, [])
     | _, _ => (s, ["bad-op"])
   | ["noadmit", c, v] =>
     match c.toNat?, v.toNat? with
     | some c, some v =>
-      let f := w.admits
-      ({ s with w := { w with admits := fun x y => if x = c ∧ y = v then false else f x y } }, [])
+      let l := (c, v) :: s.noadmit
+      ({ s with noadmit := l, w := { w with admits := fun x y => !(l.contains (x, y)) } }, [])
     | _, _ => (s, ["bad-op"])
   | ["nolink", a, b] =>
     match a.toNat?, b.toNat? with
     | some a, some b =>
-      let f := w.linkOk
-      ({ s with w := { w with linkOk := fun x y => if x = a ∧ y = b then false else f x y } }, [])
+      let l := (a, b) :: s.nolink
+      ({ s with nolink := l, w := { w with linkOk := fun x y => !(l.contains (x, y)) } }, [])
     | _, _ => (s, ["bad-op"])
   | ["setlabel", n, l] =>
     match n.toNat? with
@@ -183,36 +225,41 @@ def step (s : St) (ws : List String) : St × List String :=
   | ["replace", p, o, n] =>
     match p.toNat?, o.toNat?, n.toNat? with
     | some p, some o, some n =>
-      let r := Edit.step s.cfg w (.replace p o n)
-      let s' := { s with w := r.1 }
+      let s := freezeStatic s
+      let r := Edit.step s.cfg s.w (.replace p o n)
+      let s' := freeze { s with w := r.1 }
       (s', obs s' r.2)
     | _, _, _ => (s, ["bad-op"])
   | ["replacelabel", p, l, n] =>
     match p.toNat?, n.toNat? with
     | some p, some n =>
-      let r := Edit.step s.cfg w (.replaceLabel p l.toList n)
-      let s' := { s with w := r.1 }
+      let s := freezeStatic s
+      let r := Edit.step s.cfg s.w (.replaceLabel p l.toList n)
+      let s' := freeze { s with w := r.1 }
       (s', obs s' r.2)
     | _, _ => (s, ["bad-op"])
   | ["copyio", me, other, ch, vh] =>
     match me.toNat?, other.toNat?, parseBool ch, parseBool vh with
     | some me, some other, some ch, some vh =>
-      let r := Edit.step s.cfg w (.copyIo me other ch vh)
-      let s' := { s with w := r.1 }
+      let s := freezeStatic s
+      let r := Edit.step s.cfg s.w (.copyIo me other ch vh)
+      let s' := freeze { s with w := r.1 }
       (s', obs s' r.2)
     | _, _, _, _ => (s, ["bad-op"])
   | ["copychan", a, b] =>
     match a.toNat?, b.toNat? with
     | some a, some b =>
-      let r := Edit.step s.cfg w (.copyChan a b)
-      let s' := { s with w := r.1 }
+      let s := freezeStatic s
+      let r := Edit.step s.cfg s.w (.copyChan a b)
+      let s' := freeze { s with w := r.1 }
       (s', obs s' r.2)
     | _, _ => (s, ["bad-op"])
   | "dag" :: p :: rest =>
     match p.toNat?, parseDag rest with
     | some p, some (start, up) =>
-      let r := Edit.step s.cfg w (.dag p up start)
-      let s' := { s with w := r.1 }
+      let s := freezeStatic s
+      let r := Edit.step s.cfg s.w (.dag p up start)
+      let s' := freeze { s with w := r.1 }
       (s', obs s' r.2)
     | _, _ => (s, ["bad-op"])
   | ["show"] => (s, obs s .ok)
